@@ -413,6 +413,8 @@ def predicates(ctx, h):
                     viol('neutralisation', 'seawater.density not consulted for the dissolved particle', j)
             else:
                 ctx.count('buoyant')
+                if all_rel_cut and not zero_all:
+                    ctx.count('all released components cut but unreleased (stripped) mass dominates: stays a particle')
                 if not (close(us, us_l, 0.) and close(rho_p, rho_l, 0.)):
                     viol('neutralisation-spurious', 'slip velocity / density differ from the library values although the dissolved-particle condition does not hold',
                          j, us=us, rho_p=rho_p, library=[us_l, rho_l])
@@ -424,7 +426,7 @@ def predicates(ctx, h):
                     viol('properties-nan-all-masses-zero',
                          'fully dissolved particle (every mass zero or a negative overshoot): properties returns non-finite slip/density/area instead of zero slip and ambient density',
                          j, out=c['out'])
-                elif not (rho_l < rho_amb):
+                elif rho_l >= rho_amb:
                     ctx.count('soluble particle not buoyant here: finiteness not demanded')
                 else:
                     viol('nonfinite-output', 'non-finite physical quantity returned for a buoyant particle with positive mass', j, out=c['out'])
@@ -435,7 +437,7 @@ def predicates(ctx, h):
                 viol('inert-changed', 'inert particle: slip/density differ from library', j)
             vals = [us, rho_p, A, beta_T, Tret]
             allfin = all(math.isfinite(v) for v in vals)
-            if not (rho_l < rho_amb):
+            if rho_l >= rho_amb:
                 ctx.count('inert particle not buoyant here: finiteness not demanded')
                 allfin = False
             elif not allfin:
